@@ -27,6 +27,7 @@ class C07(FCheck):
         driver, workers, bs = gen.pick_config(r, multiblock=True)
         cap = 3000 if bs < 64 else 150_000
         shape = r.choice(["specials", "empty", "manyblocks", "plain", "plain", "manyfiles", "past-eof"])
+        kern_extra = {}
         if idx % 16 == 5:
             shape = "manyfiles-special"
         ops = [gen.d_op("src")]
@@ -39,6 +40,10 @@ class C07(FCheck):
                 ops.append(gen.d_op("src/e1/e2"))
         elif shape == "manyblocks":
             bs = r.choice([4096, 1000])
+            workers = r.choice([1, 1, 2, workers])
+            if r.random() < 0.6:
+                # this kernel moves fewer bytes per call than a block: every block job sees short counts while the pool queue is full
+                kern_extra = {"max_io": r.choice([bs // 2, bs - 1, 512])}
             for i in range(r.randrange(1, 3)):
                 ops.append(gen.f_op("src/m%d" % i, bs * r.randrange(130, 300), pat=r.randrange(1, 1 << 30)))
         elif shape == "manyfiles":
@@ -73,6 +78,7 @@ class C07(FCheck):
             flags["fsync"] = True
         if r.random() < 0.15:
             flags["n"] = True
+        gen.swarm_flags(r, flags, allow=("ownership", "no_perms", "no_timestamps", "reflink"), p=0.2 if shape == "specials" else 0.08)
         if r.random() < 0.3:
             ops.append(gen.d_op("dst"))
         if idx % 20 == 7 and shape not in ("manyfiles-special", "past-eof"):
@@ -86,6 +92,8 @@ class C07(FCheck):
         if shape == "manyfiles-special":
             inv["flags"].pop("n", None)
         case = {"setup": ops, "steps": [{"inv": inv}], "max_events": 200_000, "timeout_s": 30}
+        if kern_extra:
+            case["kernel"] = dict(kern_extra)
         if shape == "past-eof":
             case["kernel"] = {"fiemap": "emulate", "fiemap_round_eof": r.random() < 0.7, "fiemap_past_eof": r.choice([0, 4096, 65536])}
             if not case["kernel"]["fiemap_round_eof"] and not case["kernel"]["fiemap_past_eof"]:
